@@ -975,6 +975,10 @@ func c04History(r *RunCtx, p *PRNG, k int) error {
 			{"name", "alice.jkl"}, {"name", "selfy.jkl"}, {"dangling-name", "nobody.jkl"}, {"garbage", "%%%"}, {"garbage", "jkl1qqqq"},
 			{"fee-collector", w.fee.String()}, {"storage-module", w.mod.String()}, {"pol", w.pol.String()}, {"other-module", e.ModAddr("distribution").String()},
 			{"fresh-account", Acct(6).String()},
+			// strings that name nobody although they look like something that does: an address in mixed case (bech32
+			// refuses it), a registered name under an upper-case TLD; and the registered name in capitals (which resolves)
+			{"mixed-case-address", strings.ToUpper(Acct(creator%4 + 1).String()[:9]) + Acct(creator%4 + 1).String()[9:]},
+			{"name-upper-tld", "alice.JKL"}, {"name-in-capitals", "ALICE.jkl"},
 		}
 	}
 	pickBuy := func(creator int) c04Buy {
@@ -1014,6 +1018,14 @@ func c04History(r *RunCtx, p *PRNG, k int) error {
 			return err
 		}
 		if err := w.buy(c04Buy{Creator: 4, For: Acct(4).String(), Days: 30, Bytes: 3 * c04GB, Denom: "ujkl", Referral: strings.ToUpper(Acct(4).String()), RefKind: "self-upper"}); err != nil {
+			return err
+		}
+		// a referral that names no account (a registered name under an upper-case TLD, an address in mixed case): full
+		// price, the commission goes to the stakers
+		if err := w.buy(c04Buy{Creator: 1, For: Acct(1).String(), Days: 30, Bytes: 3 * c04GB, Denom: "ujkl", Referral: "alice.JKL", RefKind: "name-upper-tld"}); err != nil {
+			return err
+		}
+		if err := w.buy(c04Buy{Creator: 1, For: Acct(1).String(), Days: 30, Bytes: 4 * c04GB, Denom: "ujkl", Referral: strings.ToUpper(Acct(2).String()[:9]) + Acct(2).String()[9:], RefKind: "mixed-case-address"}); err != nil {
 			return err
 		}
 		// (3) two equal purchases in one block meet in one gauge, which must record both deposits
